@@ -5,6 +5,7 @@ go 1.23
 require (
 	github.com/islishude/bip39 v0.0.0
 	golang.org/x/text v0.14.0
+	verifshim v0.0.0-00010101000000-000000000000
 )
 
 require golang.org/x/crypto v0.17.0 // indirect
